@@ -470,10 +470,16 @@ def joint_vs_sequential(ctx, pq, rng, sim):
             smap[key] = smap.get(key, 0.0) + float(b.frequency)
         ctx.c["joint_vs_sequential_pairs"] += 1
         keys = set(jmap) | set(smap)
+        # shots=None prunes outcomes below 1e-8 at every measurement by design: an outcome that only one of the two maps
+        # lists may weigh up to that much (thorough-tier false alarm: P = 2.6e-9 sequentially, pruned jointly, DESIGN 7.4)
+        def excess(k_):
+            both = k_ in jmap and k_ in smap
+            return abs(jmap.get(k_, 0.0) - smap.get(k_, 0.0)) - (1e-10 if both else 1.0001e-8)
+
         dev = max(abs(jmap.get(k_, 0.0) - smap.get(k_, 0.0)) for k_ in keys) if keys else 0.0
         ctx.classes.add("jvs|%s|d%d|split:%s" % (sim, d, [len(b_) for b_ in part]))
-        if dev > 1e-10:
-            worst = max(keys, key=lambda k_: abs(jmap.get(k_, 0.0) - smap.get(k_, 0.0)))
+        if keys and max(excess(k_) for k_ in keys) > 0:
+            worst = max(keys, key=excess)
             ctx.viol("sequential-differs-from-joint:%s" % sim,
                      "measuring modes %s as %s gives P%s = %.12f, jointly %.12f (max deviation %.3e)" % (mm, part, worst, smap.get(worst, 0.0), jmap.get(worst, 0.0), dev),
                      {"doc": seq, "joint": joint})
